@@ -49,9 +49,10 @@ def content_bytes(rng):
 class DocGen:
     """a document with a page tree, content streams, resources (own / inherited / indirect),
     annotations, unreachable objects, indirect-reference objects; mostly well-formed"""
-    def __init__(self, rng, allow_filters=False):
+    def __init__(self, rng, allow_filters=False, content_heavy=False):
         self.rng = rng
         self.allow_filters = allow_filters
+        self.content_heavy = content_heavy     # most pages get a Contents behind references / shared with another page
         self.next = rng.choice([1, 1, 1, 3, 10])
         self.objects = {}          # id -> obj
         self.pages = []            # page ids in DFS order
@@ -135,6 +136,9 @@ class DocGen:
             ent.append((b'MediaBox', arr(num(0), num(0), num(612), num(792))))
         # Contents
         r = rng.random()
+        if self.content_heavy:
+            # the shapes the repaired change_page_content / add_page_contents resolve, and streams that several pages show
+            r = rng.choice([0.1, 0.5, 0.62, 0.62, 0.7, 0.7, 0.7, 0.78, 0.83, 0.9, 0.9, 0.9])
         if r < 0.45:
             cv = 'ref'; ent.append((b'Contents', ref(self.stream())))
         elif r < 0.60:
@@ -149,6 +153,14 @@ class DocGen:
             cv = 'refref'; ent.append((b'Contents', ref(self.put(ref(self.stream())))))
         elif r < 0.85:
             cv = 'odd'; ent.append((b'Contents', rng.choice([num(1), ('null',), ref((999983, 0)), arr(num(1), ref(self.stream()))])))
+        elif r < 0.95 and self.content_heavy and self.streams:
+            # an array (direct, or an array object) that holds a stream another page shows too, alone or among others,
+            # possibly behind a reference object
+            cv = 'sharedarr'
+            s0 = rng.choice(self.streams)
+            it = ref(self.put(ref(s0))) if rng.random() < 0.3 else ref(s0)
+            items = rng.choice([[it], [it], [it, ref(self.stream())], [ref(self.stream()), it]])
+            ent.append((b'Contents', ref(self.put(arr(*items))) if rng.random() < 0.5 else arr(*items)))
         else:
             cv = 'none'
         # Resources
@@ -522,6 +534,15 @@ class ProgGen:
         return ops
 
 
+    def content_program(self):
+        """content edits (change_page_content, add_page_contents, add_to_page_content, change_content_stream) on the pages of a
+        document whose Contents entries sit behind references and share streams, with reads and a few other operations between"""
+        rng = self.rng
+        ops = []
+        for _ in range(rng.randint(1, 10)):
+            ops.append(self.one(['cpc', 'cpc', 'cpc', 'apc', 'apc', 'atpc', 'ccs', 'content'] if rng.random() < 0.8 else ALL_OPS))
+        return ops
+
     def strip_program(self):
         """deletions of objects that the dictionary of a stream names directly (delete_object on the target, delete_pages on a
         page), early in the program while the holder is still reachable, interleaved with a few other operations"""
@@ -549,10 +570,12 @@ def orc_sx(tbl):
 
 
 def gen_program(rng, kinds, maxlen=40):
-    g = DocGen(rng, allow_filters=True).build(p_held=0.7 if kinds == 'strip' else None)
+    g = DocGen(rng, allow_filters=True, content_heavy=(kinds == 'content')).build(p_held=0.7 if kinds == 'strip' else None)
     pg = ProgGen(rng, g)
     if kinds == 'outline':
         return g, pg.outline_program()
+    if kinds == 'content':
+        return g, pg.content_program()
     if kinds == 'strip':
         return g, pg.strip_program()
     n = rng.choice([1, 2, 3, 5, 8, 12, 20, 30, maxlen])
@@ -587,7 +610,7 @@ def gen_cases(rng, tier):
     progs = []
     for _ in range(n):
         r = rng.random()
-        kinds = STAGE1 if r < 0.2 else 'outline' if r < 0.35 else 'strip' if r < 0.47 else ALL_OPS
+        kinds = STAGE1 if r < 0.2 else 'outline' if r < 0.35 else 'strip' if r < 0.47 else 'content' if r < 0.59 else ALL_OPS
         progs.append(gen_program(rng, kinds) + (kinds,))
     z = oracle_answers(set().union(*[g.plains for g, _, _ in progs]))
     cases = []
@@ -599,8 +622,8 @@ def gen_cases(rng, tier):
                 tbl.append(('f', z[p], p))
         for c, p in sorted(g.inflate.items()):
             tbl.append(('f', c, p))
-        cases.append((case_line(g.sx(), ops, tbl), {'kind': 'prog-strip' if kinds == 'strip' else 'prog-outline' if kinds == 'outline' else 'prog',
-                                                    'nontrivial': len(ops) >= 2 or kinds == 'strip'}))
+        cases.append((case_line(g.sx(), ops, tbl), {'kind': 'prog-strip' if kinds == 'strip' else 'prog-outline' if kinds == 'outline' else 'prog-content' if kinds == 'content' else 'prog',
+                                                    'nontrivial': len(ops) >= 2 or kinds in ('strip', 'content')}))
     return cases
 
 
@@ -688,7 +711,9 @@ SPEC = {
             'u32::MAX; streams whose DICTIONARY holds direct references -- SMask / Metadata / OC / Resources / Pg as a single '
             'reference, colour-space and mask arrays holding the reference once or twice, nested Resources / Group dictionaries, '
             'an indirect Length -- to pages, annotations, fonts, other streams; these targets are preferred by delete_object / '
-            'delete_pages steps, and 12 % of the programs are strip programs: such deletions first, while the holder is reachable); '
+            'delete_pages steps, and 12 % of the programs are strip programs: such deletions first, while the holder is reachable; 12 % are content '
+            'programs: content edits on documents whose Contents entries are indirect arrays, references to references, arrays holding a stream '
+            'another page shows; 10 % of the Pages nodes have an indirect Count, 6 % of the pages sit behind a reference object); '
             'after every delete_object / delete_pages the verdict "no reference to a deleted id survives in anything a traversal '
             'from the trailer reaches" is evaluated; after every step the canonical dump (objects, trailer, max_id) and the returned value are compared '
             'with the model and the invariants are evaluated on the implementation; non-trivial = at least 2 operations; '
